@@ -112,7 +112,7 @@ def run_case(args):
 def run(tier, V):
     vi = build('asan')
     W = c17.Widths()
-    n = 5000 if tier == 'quick' else 60000
+    n = 5000 if tier == 'quick' else 40000
     base = common.seed() * 141650939 % (1 << 40)
     res = pmap(run_case, [(vi, base + i, W) for i in range(n)], procs=True)
     nontriv = 0
